@@ -421,10 +421,11 @@ PROPS = {
         "assumptions": ["interval arguments inside the view (outside: the crate asserts; compared as panic)"],
     },
     "C17": {
-        "lean_modules": ["Dbg.Props.C17"],
-        "theorems": ["Lmer.C17_word_set", "Lmer.C17_word_get", "Lmer.C17_new_len"],
-        "partial": ["multi-word set_slice_mut (incl. the length-byte protection), rc, get_kmer, repr_inj for every word count: modelled bit for "
-                    "bit and executed against the crate on every run, theorems not yet written"],
+        "lean_modules": ["Dbg.Props.C17", "Dbg.Props.C12"],
+        "theorems": ["Lmer.C17_constructors", "Lmer.C17_step", "Lmer.C17_history", "Lmer.C17_observers", "Lmer.C17_repr_canonical",
+                     "Lmer.C17_routes_agree", "Lmer.C17_faithful", "Lmer.C17_getKmer_guard", "C12.C12_lmer",
+                     "Lmer.C17_word_set", "Lmer.C17_word_get", "Lmer.C17_new_len"],
+        "partial": [],
         "n_quick": 8000, "n_thorough": 600000,
         "nontrivial": lambda toks, impl: impl != "panic" and toks[1] == "hist" and toks[4] != "-", "tags": _c17_tags,
         "rule": "requests `hist <n> <seq> <ops>`: an Lmer of n = 1..6 words built by from_slice from a sequence of length 0..max_len (max_len and "
@@ -436,11 +437,10 @@ PROPS = {
     },
     "C13": {
         "lean_modules": ["Dbg.Props.C13", "Dbg.Props.C10"],
-        "theorems": ["KIter.C13_dnaString", "KIter.C13_dnaString_guard", "KIter.C13_slice", "KIter.C13_bytes", "KIter.C13_iter", "KIter.C13_iter_exts",
-                     "KIter.C13_specExt", "KIter.C13_term", "KIter.C13_iter_eq_getKmer", "KIter.C13_bytes_getKmer", "KIter.C13_bytes_getKmer_guard",
-                     "Kmer.C10_kmersFromBytes", "Kmer.C10_kmersFromAscii"],
-        "partial": ["Lmer as a faithful container (its get_kmer uses the same block walk, proved for any storage in DnaStr.walk_spec; the "
-                    "length-byte bookkeeping is C17's multi-word refinement, not yet proved)"],
+        "theorems": ["KIter.C13_dnaString", "KIter.C13_dnaString_guard", "KIter.C13_slice", "KIter.C13_bytes", "KIter.C13_lmer", "KIter.C13_iter",
+                     "KIter.C13_iter_exts", "KIter.C13_specExt", "KIter.C13_term", "KIter.C13_iter_eq_getKmer", "KIter.C13_bytes_getKmer",
+                     "KIter.C13_bytes_getKmer_guard", "Kmer.C10_kmersFromBytes", "Kmer.C10_kmersFromAscii"],
+        "partial": [],
         "n_quick": 12000, "n_thorough": 800000,
         "nontrivial": lambda toks, impl: impl not in ("panic", "-"), "tags": _c13_tags,
         "rule": "requests `<ktype> getkmer|iter|iterexts|term <container> <seq> [arg]` over 12 k-mer types (K = 2..64, all five storage widths) and "
@@ -452,9 +452,10 @@ PROPS = {
     },
     "C12": {
         "lean_modules": ["Dbg.Props.C12", "Dbg.Props.C10"],
-        "theorems": ["KSpec.rc_rc", "KSpec.rc_getElem", "KSpec.windows_rc", "Kmer.C12_kmer_rc_involution", "Kmer.C12_minRc_spec", "Kmer.C12_minRc_rc",
-                     "Kmer.C12_minRcFlip", "Kmer.C12_isPalindrome", "Compress.C12_exts_rc", "Kmer.C10_rc"],
-        "partial": ["rc of DnaString, Lmer and slices refines the list rc (rests on C14/C17/C15 refinements, not yet proved; executed on every run)"],
+        "theorems": ["KSpec.rc_rc", "KSpec.rc_getElem", "KSpec.windows_rc", "KSpec.rc_window", "Kmer.C12_kmer_rc_involution", "Kmer.C12_minRc_spec",
+                     "Kmer.C12_minRc_rc", "Kmer.C12_minRcFlip", "Kmer.C12_isPalindrome", "Compress.C12_exts_rc", "Kmer.C10_rc",
+                     "C12.C12_dnaString", "C12.C12_lmer", "C12.C12_slice", "C12.C12_kmers_of_rc"],
+        "partial": [],
         "n_quick": 8000, "n_thorough": 500000,
         "nontrivial": lambda toks, impl: impl != "panic", "tags": _c12_tags,
         "harness_key": "C12",
